@@ -19,15 +19,15 @@ def gen_random(cs, rnd, n):
         nrows = rnd.choice([0, 1, 2, 3, 5, 8, 13, 25, 40])
         if cfg["sorts"][0]["e"] == PL.SELF:
             # whole rows as keys: no two different objects (their mutual order is not documented)
-            uni = [v for v in PL.key_universe(rnd, with_object=False)]
+            uni = [v for v in PL.key_universe(rnd, with_object=False, zeros=rnd.random() < 0.5)]
             one_obj = PL.parse_ast(rnd.choice(['{"id":1,"k2":3}', '{}']))
             rows = [rnd.choice(uni + [one_obj]) for _ in range(nrows)]
         else:
-            rows = PL.rand_rows(rnd, nrows, few_keys=rnd.random() < 0.7, scalars=0.05)
+            rows = PL.rand_rows(rnd, nrows, uni=PL.key_universe(rnd, zeros=rnd.random() < 0.4), few_keys=rnd.random() < 0.7, scalars=0.05)
         PC.add_ref(cs, cfg, rows, rnd, spell=rnd.random() < 0.3)
 
 
-ORDER_UNI = ['null', 'false', 'true', '""', '"a"', '"A"', '"aa"', '"ab"', '"b"', '"é"', '"10"', '"9"', '0', '1', '1.0', '-1', '-1.5', '0.5', '2', '10', '9', '1e3',
+ORDER_UNI = ['null', 'false', 'true', '""', '"a"', '"A"', '"aa"', '"ab"', '"b"', '"é"', '"10"', '"9"', '0', '-0', '-0.0', '1', '1.0', '-1', '-1.5', '0.5', '2', '10', '9', '1e3',
              '9007199254740991', '[]', '[1]', '[1, 2]', '[2]', '[0, 5]', '["a"]', '[[1]]', '[null]', '[10]', '[9]', '{}', '{"a": 1}', '{"b": 2, "a": 1}', '{"a": 1, "b": 2}']
 
 
@@ -41,7 +41,7 @@ def sort_functions_and_order(chk, jvh, rnd, quick):
     from streamlib import run_trace_spec
     table = X.Table()
     items = []
-    uni = ORDER_UNI if not quick else ORDER_UNI[::2] + ['[1, 2]', '[2]', '"10"', '"9"', '10', '9']
+    uni = ORDER_UNI if not quick else ORDER_UNI[::2] + ['[1, 2]', '[2]', '"10"', '"9"', '10', '9', '0', '-0']
     for a in uni:
         for b in uni:
             for f in ("<", "<=", ">", ">=", "="):
@@ -49,7 +49,7 @@ def sort_functions_and_order(chk, jvh, rnd, quick):
             items.append(("(sort [%s, %s])" % (a, b), ("null",)))
     for i in range(150 if quick else 6000):
         n = rnd.choice([2, 5, 12, 21, 25, 30, 40])
-        keys = rnd.sample(ORDER_UNI[:33], rnd.choice([2, 3, 5]))           # few distinct keys: many ties; no two different objects
+        keys = rnd.sample(ORDER_UNI[:35], rnd.choice([2, 3, 5]))           # few distinct keys: many ties; no two different objects
         lst = ("arr", [("obj", [(X.cps("id"), ("num", str(j))), (X.cps("k"), PL.parse_ast(rnd.choice(keys)))] if rnd.random() < 0.9 else [(X.cps("id"), ("num", str(j)))])
                        for j in range(n)])
         f = rnd.choice(["(sort_by . .k)", "(order_by . .k)", "(sort_by . (get . \"k\"))", "(sort (map . .k))", "(sort_unique (map . .k))",
